@@ -14,7 +14,8 @@
 
 static int resolve_link(fstree_t *fs, tree_node_t *node)
 {
-	tree_node_t *start = node;
+	tree_node_t *start = node, *mark = node;
+	size_t steps = 0, limit = 1;
 
 	for (;;) {
 		if (!S_ISLNK(node->mode) || !(node->flags & FLAG_LINK_IS_HARD))
@@ -30,9 +31,21 @@ static int resolve_link(fstree_t *fs, tree_node_t *node)
 				return -1;
 		}
 
-		if (node == start) {
+		/*
+		 * The chain may run into a cycle that does not contain the
+		 * start node. Brent's algorithm: compare against a marker that
+		 * is moved up to the current node at exponentially growing
+		 * intervals, so any cycle is entered and detected eventually.
+		 */
+		if (node == start || node == mark) {
 			errno = EMLINK;
 			return -1;
+		}
+
+		if (++steps == limit) {
+			mark = node;
+			steps = 0;
+			limit *= 2;
 		}
 	}
 
